@@ -141,6 +141,15 @@ End AliasOps.
 Definition alias_step := gen_alias_step np_pycast np_arrcast np_infer np_astype_dt np_itemseq_exn.
 Definition alias_init_model := gen_alias_init_model np_pycast np_arrcast np_infer np_astype_dt.
 
+(* M(span, **keywords): Python binds the keywords AFTER AliasMixin.__init__ has renamed them through _resolve_alias - a keyword
+   called default_value that is an alias reaches the base constructor under the variable's name (and default_value keeps 0.0) *)
+Definition keyword_call (classattrs : list string) (am : aobj) (k : ckind) (sp : list Z) (st : bool) (d : dreq)
+           (NAMES : list string) (rawkw : list (string * operand)) : res :=
+  let kw := resolve_kwargs am rawkw in
+  alias_init_model classattrs am k sp st d
+    (match assoc "default_value" kw with Some v => v | None => OScalar (PFlt (FHalf 0)) end) NAMES
+    (filter (fun kv => negb (String.eqb (fst kv) "default_value")) kw).
+
 (* ---------------------------------------------------------------- reads *)
 (* VectorContainer.__getitem__ (cells addressed), without aliases *)
 Definition getitem (k : key) (s : state) : outcome (list pyval) :=
